@@ -25,17 +25,22 @@ EXTENDS Store, Auth, Page, Datalog, Json, IOUtils
 \* type.  MustAccept: the kind the type names.  MustReject: a kind no documented
 \* coercion maps into the type.  Everything else (int into float, int as bool,
 \* timestamps, vectors, `any`, named types) is left open.
+\* a type is a name, or "vector:<n>" for vector(n): a vector of another dimension must be rejected
+VecDim(ty) == CHOOSE n \in 0..16 : ty = "vector:" \o ToString(n)
+IsVecTy(ty) == \E n \in 0..16 : ty = "vector:" \o ToString(n)
 MustAcceptV(v, ty) ==
   CASE ty = "int"    -> v[1] \in { "i64", "i32" }
     [] ty = "string" -> v[1] = "s"
     [] ty = "float"  -> v[1] = "f"
     [] ty = "bool"   -> v[1] = "b"
+    [] IsVecTy(ty)   -> v[1] = "v" /\ Len(v[2]) = VecDim(ty)
     [] OTHER -> FALSE
 MustRejectV(v, ty) ==
-  CASE ty = "int"    -> v[1] \in { "s", "b" }
-    [] ty = "string" -> v[1] \in { "i64", "i32", "f", "b" }
-    [] ty = "float"  -> v[1] \in { "s", "b" }
-    [] ty = "bool"   -> v[1] \in { "s", "f" }
+  CASE ty = "int"    -> v[1] \in { "s", "b", "v" }
+    [] ty = "string" -> v[1] \in { "i64", "i32", "f", "b", "v" }
+    [] ty = "float"  -> v[1] \in { "s", "b", "v" }
+    [] ty = "bool"   -> v[1] \in { "s", "f", "v" }
+    [] IsVecTy(ty)   -> v[1] # "v" \/ Len(v[2]) # VecDim(ty)
     [] OTHER -> FALSE
 MustAcceptT(x, types) == Len(x) = Len(types) /\ \A i \in DOMAIN types : MustAcceptV(x[i], types[i])
 MustRejectT(x, types) == Len(x) # Len(types) \/ \E i \in DOMAIN types : MustRejectV(x[i], types[i])
@@ -158,7 +163,9 @@ Step == /\ l <= Len(Rec) /\ Rec[l].ev = "step"
                                            R.req.srank),
                           [ok |-> R.res.ok, total |-> R.res.total, full |-> Len(R.res.ref.rows), got |-> Len(R.res.rows)]>>)
               \* C33: a declared schema is enforced (req.types = declared column types of req.rel)
-              /\ Has(R, "C33") =>
+              \* (judged only if the system shows a schema for the relation: a declaration the
+              \*  statement parser did not take as one declares nothing)
+              /\ (Has(R, "C33") /\ R.req.rel \in DOMAIN Get(cur.schemas, R.req.kg, EmptyMap)) =>
                     LET g == R.req.kg
                         pre == Rel(cur, g, R.req.rel)
                         post == Rel(t, g, R.req.rel)
